@@ -36,6 +36,9 @@ def codecEntry : String → Option (String × Bool)
   | "vcs.parsed" => some ("ParsedVcs", false)
   | "vcs.git" => some ("Vcs", false)
   | "vcs.svn" => some ("Vcs", false)
+  | "vcs.bzr" => some ("Vcs", false)
+  | "vcs.hg" => some ("Vcs", false)
+  | "vcs.cvs" => some ("Vcs", false)
   | "vcs.other" => some ("Vcs", true)
   | "identity" => some ("Identity", false)
   | "cpr.license" => some ("License", false)
@@ -52,6 +55,9 @@ def codecEntry : String → Option (String × Bool)
 def pre : String → List String
   | "vcs.git" => [encStr "Git".toList]
   | "vcs.svn" => [encStr "Svn".toList]
+  | "vcs.bzr" => [encStr "Bzr".toList]
+  | "vcs.hg" => [encStr "Hg".toList]
+  | "vcs.cvs" => [encStr "Cvs".toList]
   | _ => []
 
 /-- `s.starts_with("Format:")`, the gate of the copyright readers -/
@@ -128,6 +134,32 @@ def typedClass (entry : String) (s : Str) (e : String) : Option String := do
   let ki ← TypedDoc.kindFor o kind
   pure (cls (isOk (Deb822Verif.TypedDoc.parse ki.kind s)))
 
+/-- the large inputs of `total.time`: `prefix ++ unit × k ++ suffix`, `k` the least number of
+    repetitions with `k · |unit| ≥ n` (lengths in UTF-8 bytes) — the same table as `shape_parts` in
+    `harness/src/total.rs` -/
+def shapeParts : String → Option (String × String × String)
+  | "valid" => some ("", "Package: a\nDepends: b (>= 1), c | d [amd64] <x>\n x\n\n", "")
+  | "errors" => some ("", ":: \u00e9(([[<<${ -\n", "")
+  | "long" => some ("", "a", "")
+  | "value1" => some ("Package: a\nDepends: ", "b (>= 1), ", "c\n")
+  | "contlines" => some ("Package: a\nDescription: x\n", " y\n", "")
+  | "archlist" => some ("a [", "b ", "]")
+  | "alts" => some ("a", " | a", "")
+  | "pgp" => some ("-----BEGIN PGP SIGNED MESSAGE-----\nHash: SHA256\n\n", "x\n",
+      "-----BEGIN PGP SIGNATURE-----\nabc\n-----END PGP SIGNATURE-----\n")
+  | "files" => some ("Format: https://www.debian.org/doc/packaging-manuals/copyright-format/1.0/\n\nFiles: ",
+      "*a ", "\nCopyright: x\nLicense: MIT\n")
+  | _ => none
+
+def shapeText (shape : String) (n : Nat) : Option Str := do
+  let (p, u, x) ← shapeParts shape
+  let ub := u.utf8ByteSize
+  let k := (n + ub - 1) / ub
+  let mut s := p
+  for _ in [0:k] do
+    s := s ++ u
+  pure (s ++ x).toList
+
 def handle (op : String) (args : List String) : Option String :=
   match op, args with
   | "total", [entry, t, e] => do
@@ -136,7 +168,14 @@ def handle (op : String) (args : List String) : Option String :=
   | "total", [entry, t] => do
     let s ← decStr t
     pure (entryClass entry s)
-  | "total.time", [_, _, _] => some "done"
+  -- the acceptance class on the large input when the generator asks for it (`cmp` = 1), else `done`
+  | "total.time", [_, _, _, "0"] => some "done"
+  | "total.time", [entry, shape, size, "1"] => do
+    let s ← shapeText shape (← size.toNat?)
+    pure (entryClass entry s)
+  | "total.time", [entry, shape, size, "1", e] => do
+    let s ← shapeText shape (← size.toNat?)
+    pure ((typedClass entry s e).getD "*")
   | _, _ => none
 
 end Deb822Verif.Driver.Total
